@@ -7,6 +7,9 @@ def handle (fn : String) (args : List Json) : String :=
   | "compact" => match args with
     | [a0] => (do let x0 ← Wire.decStr a0; pure (Wire.respondWith Wire.encStr (Gen.us_tin.compact x0)) : Option String).getD "badargs"
     | _ => "badargs"
+  | "format" => match args with
+    | [a0] => (do let x0 ← Wire.decStr a0; pure (Wire.respondWith Wire.encStr (Gen.us_tin.format x0)) : Option String).getD "badargs"
+    | _ => "badargs"
   | "guess_type" => match args with
     | [a0] => (do let x0 ← Wire.decStr a0; pure (Wire.respondWith (Wire.encList Wire.encStr) (Gen.us_tin.guess_type x0)) : Option String).getD "badargs"
     | _ => "badargs"
